@@ -163,7 +163,7 @@ Proof.
   - cbn [run fold_left writes map concat]. now rewrite app_nil_r.
   - rewrite writes_cons. change (run s (o :: ops)) with (run (apply s o) ops).
     destruct o as [r| | |k lvl top bot added|]; cbn [run_checked apply] in *.
-    + apply andb_true_iff in Hr as [Hp Hr]. apply put_okb_spec in Hp as (P1 & P2 & P3).
+    + apply andb_true_iff in Hr as [Hp Hr]. apply put_okb_spec in Hp as (P1 & P2).
       rewrite app_assoc. apply IH; [now apply put_content_ok_gen | now apply seq_functional_snoc | exact Hr].
     + apply IH; [|exact Hf | exact Hr]. eapply content_ok_same; [apply all_recs_rotate | exact Hc].
     + apply IH; [|exact Hf | exact Hr]. eapply content_ok_same; [apply all_recs_flush | exact Hc].
